@@ -369,3 +369,51 @@ def num_of(n):
 def ignored(ignorepatt, pattern):
     """The configured ignore pattern is searched in selectorbase/name."""
     return re.search(ignorepatt, pattern) is not None
+
+
+# ---------------------------------------------------------------------------- C05 / C06 / C15
+def gopher_line(typ, name, selector, host, port, gplus):
+    """RFC 1436 menu line (with the Gopher+ flag field when the item supports Gopher+)."""
+    return typ + name + "\t" + selector + "\t" + host + "\t" + str(port) + ("\t+\r\n" if gplus else "\r\n")
+
+
+def is_norm(s):
+    """Selector normal form: leading slash, no trailing slash unless it is the root."""
+    return s.startswith("/") and (s == "/" or not s.endswith("/"))
+
+
+def parse_gopher_selector(request):
+    """What the Gopher family makes of a request line."""
+    return norm(request.split("\t")[0].strip())
+
+
+def gplus_views(mimetype, language, size):
+    if not mimetype:
+        return ""
+    r = "+VIEWS:\r\n " + mimetype
+    if language:
+        r = r + " " + language
+    r = r + ":"
+    if size is not None:
+        r = r + " <" + str(size // 1024) + "k>"
+    return r + "\r\n"
+import urllib.parse
+
+
+def url_roundtrip(s):
+    """HTTP/WAP: percent-encode a selector as the renderers do, cut at '?' and decode once as handle() does."""
+    return norm(urllib.parse.unquote(urllib.parse.quote(s, errors="surrogateescape").split("?")[0], errors="surrogateescape"))
+
+
+def url_link(selector):
+    return re.match("(/|)URL:(.+)$", selector) is not None
+
+
+def gem_link(selector):
+    """Gemini/Spartan link target of a local entry: the percent-encoded selector bytes ('/' for the root)."""
+    return urllib.parse.quote(selector.encode(errors="surrogateescape")) or "/"
+
+
+def gem_desc(name):
+    d = name or ""
+    return d.encode(errors="surrogateescape").decode(errors="backslashreplace")
